@@ -82,6 +82,24 @@ def assignments(r, n):
     return out
 
 
+def role_swapped(r, tokens):
+    """Assignments with the same spellings but two roles exchanged (preferring spellings of
+    different lengths), kept valid (keys token must not look like a name)."""
+    out = []
+    ids = list(IDENTS)
+    pairs = [(a, b) for i, a in enumerate(ids) for b in ids[i + 1:] if len(tokens[a]) != len(tokens[b])] or [(a, b) for i, a in enumerate(ids) for b in ids[i + 1:]]
+    r.shuffle(pairs)
+    for a, b in pairs[:2]:
+        t = dict(tokens)
+        t[a], t[b] = tokens[b], tokens[a]
+        if t["keys"][0] == "_" or t["keys"][0].isalnum():
+            continue
+        if any(("|" in t[k] or "&" in t[k]) for k in IDENTS if k not in ("union", "inter")):
+            continue  # `|` / `&` outside the compound operators would overlap the fixed `||` / `&&` rules
+        out.append(t)
+    return out
+
+
 def plan(tier, seed):
     n_assign = 72 if tier == "quick" else 400
     shards = 12 if tier == "quick" else 40
@@ -187,9 +205,17 @@ def run(spec, ctx):
     mine = [a for i, a in enumerate(assigns) if i % spec["parts"] == spec["part"]]
     ctx.count("assignments", len(mine))
     for tokens in mine:
-        for _ in range(spec["per"]):
+        twins = role_swapped(r, tokens)
+        for n in range(spec["per"]):
             comp, fg = gen_compound(r)
             doc = gen.ext_doc(r, ["a", "b", "c", "k", "v"], extra=fg.witnesses)
+            if n < 6:
+                # the same spellings with two roles exchanged, in the same process before and
+                # after: environments must not influence one another
+                for tw in twins:
+                    check_case(ctx, tw, comp, doc)
+                    check_case(ctx, tokens, comp, doc)
+                    ctx.count("role_swapped_twin_sequences")
             check_case(ctx, tokens, comp, doc)
             # each simple operand alone as well
             for q in flat(comp)[:2]:
